@@ -22,7 +22,7 @@ pub fn check() -> Check {
         spec: CheckSpec {
             id: "C08",
             level: "exploration",
-            rule: "one case = a generated sequence of 1-5 frames the connection can write (simple strings/errors without CR/LF, integers incl. i64::MIN/MAX, bulk strings of 0..70 KB of arbitrary bytes incl. trailing CR and embedded CRLF, null, flat arrays of those). Oracle: (1) Connection::write_frame into an in-memory sink produces exactly the reference encoding; (2) Connection::read_frame over an in-memory stream that hands out exactly the chosen segments returns the same frames and then a clean None, for the segmentations: all at once, one byte at a time, EVERY two-segment split (exhaustive for encodings up to 300 bytes), and seeded random cuts; (3) Frame::check on every strict prefix of each encoding is Incomplete; (4) a stream that ends inside a frame (every strict non-empty prefix of the last frame for short encodings) makes read_frame return an error after the complete frames, never None and never a shorter frame. One evaluation = one (sequence, segmentation or prefix) run. Non-trivial/distinct = distinct (encoding hash, segmentation) pairs with at least one cut inside a frame.",
+            rule: "one case = a generated sequence of 1-5 frames the connection can write (simple strings/errors without CR/LF, integers incl. i64::MIN/MAX, bulk strings of 0..70 KB of arbitrary bytes incl. trailing CR and embedded CRLF, null, flat arrays of those). Oracle: (1) Connection::write_frame into an in-memory sink (which accepts everything, or at most 1 / 7 / 4096 / 10 000 bytes per write call) produces exactly the reference encoding; (2) Connection::read_frame over an in-memory stream that hands out exactly the chosen segments returns the same frames and then a clean None, for the segmentations: all at once, one byte at a time, EVERY two-segment split (exhaustive for encodings up to 300 bytes), and seeded random cuts; (3) Frame::check on every strict prefix of each encoding is Incomplete; (4) a stream that ends inside a frame (every strict non-empty prefix of the last frame for short encodings) makes read_frame return an error after the complete frames, never None and never a shorter frame. One evaluation = one (sequence, segmentation or prefix) run. Non-trivial/distinct = distinct (encoding hash, segmentation) pairs with at least one cut inside a frame.",
             assumptions: vec!["nested arrays are outside 'frames the connection can write' (write_frame does not implement them)", "the in-memory stream never returns Pending; scheduling is not the subject here"],
             death_is_violation: true,
         },
@@ -43,11 +43,14 @@ pub struct SegStream {
     segs: VecDeque<Vec<u8>>,
     pub written: Arc<Mutex<Vec<u8>>>,
     pub reads: Arc<Mutex<u64>>,
+    /// most bytes one write call accepts (0 = everything): a sink may take only a part, the way a
+    /// socket with a nearly full send buffer does
+    pub write_limit: usize,
 }
 
 impl SegStream {
     pub fn new(segs: Vec<Vec<u8>>) -> Self {
-        SegStream { segs: segs.into_iter().filter(|s| !s.is_empty()).collect(), written: Arc::new(Mutex::new(Vec::new())), reads: Arc::new(Mutex::new(0)) }
+        SegStream { segs: segs.into_iter().filter(|s| !s.is_empty()).collect(), written: Arc::new(Mutex::new(Vec::new())), reads: Arc::new(Mutex::new(0)), write_limit: 0 }
     }
 }
 
@@ -68,8 +71,9 @@ impl AsyncRead for SegStream {
 
 impl AsyncWrite for SegStream {
     fn poll_write(self: Pin<&mut Self>, _cx: &mut Context<'_>, buf: &[u8]) -> Poll<std::io::Result<usize>> {
-        self.written.lock().unwrap().extend_from_slice(buf);
-        Poll::Ready(Ok(buf.len()))
+        let n = if self.write_limit == 0 { buf.len() } else { buf.len().min(self.write_limit) };
+        self.written.lock().unwrap().extend_from_slice(&buf[..n]);
+        Poll::Ready(Ok(n))
     }
     fn poll_flush(self: Pin<&mut Self>, _cx: &mut Context<'_>) -> Poll<std::io::Result<()>> {
         Poll::Ready(Ok(()))
@@ -209,11 +213,17 @@ fn case(ctx: &Ctx, rt: &tokio::runtime::Runtime, case: u64, out: &mut Out) -> Op
     let eh = crate::orch::fnv(&all);
 
     // (1) the writer
-    for (f, enc) in frames.iter().zip(&encs) {
+    for (wi, (f, enc)) in frames.iter().zip(&encs).enumerate() {
         let fi = to_impl(f).expect("generated frames are representable");
+        // the sink takes everything at once, or at most 1 / 7 / 4096 / 10 000 bytes per write call
+        let write_limit = [0usize, 1, 7, 4096, 10_000][((eh as usize) ^ wi) % 5];
+        if write_limit > 0 && enc.len() > write_limit {
+            out.count("frames_written_into_a_sink_that_takes_only_a_part_per_call", 1);
+        }
         let res = std::panic::catch_unwind(std::panic::AssertUnwindSafe(|| {
             rt.block_on(async {
-                let s = SegStream::new(vec![]);
+                let mut s = SegStream::new(vec![]);
+                s.write_limit = write_limit;
                 let w = s.written.clone();
                 let mut conn = Connection::new(s);
                 let r = conn.write_frame(&fi).await;
